@@ -90,6 +90,44 @@ pub fn check(v: &View, vd: &mut Verdict) {
                 }
             }
         }
+        // timer ticks are handler invocations like any other (the family registers at most one timer, in
+        // `started`, so every tick of this actor runs that timer's work)
+        let tick_work: Option<u64> = v.rt[a].slot.and_then(|s| {
+            v.case.actors[s].beh.started.iter().find_map(|st| if let Step::AddTimer(t) = st { Some(duration(&t.work)) } else { None })
+        });
+        if let Some(d) = tick_work {
+            let world_stopped = dead > v.phase(Phase::Teardown) || !v.case.faults.is_empty();
+            for (k, i) in invs.iter().enumerate() {
+                if !matches!(i.msg, MsgRef::Tick { .. }) {
+                    continue;
+                }
+                if failed_at.is_some_and(|f| i.enter > f) {
+                    break;
+                }
+                match cfg {
+                    Some((t, fail)) if d > t as u64 => {
+                        vd.class("tick_exceeds_timeout");
+                        if i.exit.is_some() {
+                            vd.fail("C11/slow_tick_completed", format!("actor {a}: a timer tick needs {d} ticks, timeout is {t}, but its handler completed (entered at {})", i.enter));
+                        }
+                        if fail {
+                            if failed_at.is_none() {
+                                failed_at = Some(i.enter);
+                            }
+                            if let Some(next) = invs.get(k + 1) {
+                                vd.fail("C11/handled_after_fail", format!("actor {a}: fail_on_timeout, a tick timed out, yet {:?} was handled afterwards at {}", next.msg, next.enter));
+                            }
+                            break;
+                        }
+                    }
+                    _ => {
+                        if i.exit.is_none() && !(dead != u64::MAX && world_stopped) && failed_at.is_none() {
+                            vd.fail("C11/fast_tick_abandoned", format!("actor {a}: a timer tick needs {d} ticks, timeout {cfg:?}, but its handler never completed (entered at {})", i.enter));
+                        }
+                    }
+                }
+            }
+        }
         if let Some(s) = failed_at {
             vd.class("fail_on_timeout_triggered");
             if v.actors[a].task_end.is_none() {
